@@ -17,6 +17,7 @@ mod props;
 mod runner;
 mod util;
 mod words;
+mod lexops;
 
 fn main() {
     let args: Vec<String> = std::env::args().collect();
@@ -30,6 +31,8 @@ fn main() {
         "c04-spec" => c04::spec(rest),
         "c05-spec" => c05::spec(rest),
         "word-ops" => words::ops(rest),
+        "lex-ops" => lexops::ops(rest),
+        "parse-ops" => lexops::parse_ops(rest),
         "c09-spec" => words::c09(rest),
         "render-all" => words::render_all(rest),
         "interp-ops" => interp::ops(rest),
